@@ -225,4 +225,22 @@ CLAIMED = {
          "in the repaired code; the race-detector run is a test of that, not a proof); other descriptors' readiness is C01's "
          "subject; the Go scheduler and memory model are not modelled."),
    technique="Coq proof (inductive invariant + progress over a labelled transition system, all interleavings); schedule-driven correspondence + concurrent oracle + race detector (thorough)"),
+ "C18": dict(
+   text=("PARTIAL proof + full correspondence. Coq theorems (5, closed) about the model of upgrade() after the request is "
+         "written: the read loop conserves the byte stream and reports the head ending at the FIRST blank line for every "
+         "segmentation, buffer size and fuel; two runs over transports delivering the same bytes agree on head and frame data "
+         "(segmentation independence); the stream ends active iff the result is nil, otherwise terminated, and when active "
+         "the bytes handed to the frame decoder followed by what the transport still holds are exactly the bytes after the "
+         "blank line (none lost, none duplicated); a header line parses to the same (name, value) whatever the letter case "
+         "and optional whitespace; lookups are invariant under header order. The implementation is run against a raw server "
+         "socket: responses from a grammar (status, protocol version, header set/order/case/whitespace, wrong/missing/"
+         "duplicated accept, malformed lines, heads of 1 KiB to 140 KiB), every single cut and every close point of a short "
+         "response, random multi-cuts, frames piggy-backed or following, blocking and asynchronous, up to 4 handshakes per "
+         "stream; outcome, state, decoder contents and the first messages are compared with the model and judged by an "
+         "independent oracle; the request is judged by an independent strict parser (key freshness included)."),
+   note=("Trusted: Coq kernel, extraction, harness, net/http's parser (modelled only on the fragment the generator produces), "
+         "crypto (the expected accept value is an input computed by the harness with crypto/sha1). Not proved: completeness "
+         "of the read loop; heads above MaxHandshakeResponseSize (64 KiB) are refused by design and out of the oracle's scope. "
+         "TLS dialling and the server role are not modelled."),
+   technique="Coq proof (stream conservation by induction over the read loop, parser invariances); differential correspondence against a raw server socket + independent oracle"),
 }
